@@ -878,7 +878,13 @@ func runCase(c Case) vh.Record {
 			src := fmt.Sprintf("GS_%d = gs_%d(); GS_%d.next(); undefined", k, k, k)
 			kk := k
 			ops = append(ops, compiled{"AScen true false RNormal []", func() (error, bool) { _, err := rt.RunString(src); return err, false }, src,
-				func(res int) string { suspOK[kk] = res == 0; return "" }})
+				func(res int) string {
+					// suspended iff the script itself completed (a failure of a pending job drained by this call comes later)
+					v := rt.Get(fmt.Sprintf("GS_%d", kk))
+					_, isObj := v.(*goja.Object)
+					suspOK[kk] = isObj
+					return ""
+				}})
 		case "gclose":
 			k := op.K
 			tk, ok := suspended[k]
